@@ -40,6 +40,10 @@ def workloads(rng, tier):
     # so that the joined size differs from BSIZE in one byte; run() keeps those with a target.
     for L, per in ((300, 16), (400, 8), (520, 32), (700, 5)):
         ws.append(dict(kind='bgzf', blocks=[[65280, 11, 251], [L, 12, per]], level=-1, wc=1, big=True))
+    # a member that inflates to exactly MaxBlockSize = 65536 bytes (legal; bgzf.Writer stops at 65280): the
+    # reader's buffer is filled completely, and the gzip trailer (CRC-32, ISIZE) is checked by the read after that
+    ws.append(dict(kind='bgzf', blocks=[], raw=[[65536, 7], [100, 3]], level=-1, wc=1, big=True, maxmember=True))
+    ws.append(dict(kind='bgzf', blocks=[], raw=[[65535, 9], [65536, 2]], level=-1, wc=1, big=True, maxmember=True))
     ws.append(dict(kind='bgzf', blocks=[[65280, 13, 251], [256, 14, 16], [300, 15, 16]], level=0, wc=1, big=True))   # level 0: a joined size that still fits 16 bits cannot exceed the buffer
     for L in (300, 350, 410, 480):
         ws.append(dict(kind='bam', recs=[30000, 30000], level=-1, wc=1, split=[65280, 65280 + L], big=True))
@@ -200,7 +204,19 @@ def run(res, rng, tier):
         n = lay['len']
         if n > maxlen and not w.get('big'):
             continue
-        if w.get('big'):
+        if w.get('maxmember'):
+            b = lay['bounds']
+            st = lay['stream']
+            muts = [[0, k] for k in (b[1] - 9, b[1] - 8, b[1] - 4, b[1] - 1, b[1], n - 28)]
+            for i in range(len(b) - 2):
+                for pos in range(b[i + 1] - 8, b[i + 1]):          # CRC-32 and ISIZE of the member
+                    muts += [[1, pos, st[pos] ^ 1], [1, pos, st[pos] ^ 0x80]]
+                span = b[i + 1] - 8 - (b[i] + 18)
+                for k in range(12):                                 # bytes of its deflate data
+                    pos = b[i] + 18 + (k * span) // 12 + rng.randrange(max(1, span // 12))
+                    muts.append([1, pos, st[pos] ^ (1 << rng.randrange(8))])
+            res.count('bgzf/max-member-mutations', len(muts))
+        elif w.get('big'):
             # only the computed merge targets, the BSIZE bytes of member 0 around them, and a few cuts
             muts = merge_targets(lay) + [[0, k] for k in (0, 18, lay['bounds'][1], lay['bounds'][1] + 18, n - 28, n - 1)]
             res.count('%s/full-block-merge-targets' % w['kind'], sum(1 for m in merge_targets(lay) if m[1] < lay['bounds'][1]))
